@@ -44,18 +44,26 @@ func (in invIn) key() string {
 	return fmt.Sprintf("%s[%s](n=%d,e=%s;%d variants)", in.Prop, in.Name, in.G.N, e, len(in.Vars))
 }
 
-// variantGraphs returns the graph as a Graph (possibly a view) and as an EditableGraph (for the functions that need one).
-func variantGraphs(gj gJ, v invVar) (graph.Graph, graph.EditableGraph) {
+// variantGraphs returns the graph as a Graph (possibly a view) and as an EditableGraph (for the functions that need one), and the graph
+// underneath a view. A "view" variant IS the relabelling: InducedSubgraph(Complement(Complement(base)), pi) over the unrelabelled base (dense
+// or sparse in turn), so the vertex list of the view is in general not ascending.
+func variantGraphs(gj gJ, v invVar) (graph.Graph, graph.EditableGraph, graph.Graph) {
 	rep := v.Rep
-	if rep == "view" {
+	if rep == "view" || rep == "coview-dense" || rep == "coview-sparse" {
 		rep = "dense"
 	}
 	h := relabelled(rep, gj, v.Pi)
-	if v.Rep == "view" {
-		id := identity(gj.N)
-		return graph.InducedSubgraph(graph.Complement(graph.Complement(h)), id), h
+	if v.Rep == "coview-dense" || v.Rep == "coview-sparse" { // the graph as the Complement view of its complement
+		co := gJOf(graph.ComplementDense(graphOfJ("dense", gj)))
+		base := relabelled(v.Rep[len("coview-"):], co, v.Pi)
+		return graph.Complement(base), h, base
 	}
-	return h, h
+	if v.Rep == "view" {
+		baseRep := []string{"dense", "sparse"}[(gj.N+len(gj.E))%2]
+		base := graphOfJ(baseRep, gj)
+		return graph.InducedSubgraph(graph.Complement(graph.Complement(base)), cp(v.Pi)), h, base
+	}
+	return h, h, h
 }
 
 func nn2(s [][]int) [][]int {
@@ -198,8 +206,8 @@ func runInv(w *tr.W, in invIn) {
 	for _, v := range in.Vars {
 		var res tr.E
 		outcome := obs.SafeT(20*time.Second, func() {
-			g, eg := variantGraphs(in.G, v)
-			before := fmt.Sprint(obs.Of(g), obs.Of(eg))
+			g, eg, base := variantGraphs(in.G, v)
+			before := fmt.Sprint(obs.Of(g), obs.Of(eg), obs.Of(base))
 			switch in.Prop {
 			case "C09":
 				res = resC09(g, eg, r)
@@ -209,7 +217,7 @@ func runInv(w *tr.W, in invIn) {
 				res = tr.E{"planar": graph.IsPlanar(g)}
 			}
 			// none of these functions may change the graph it is given
-			res["same"] = before == fmt.Sprint(obs.Of(g), obs.Of(eg))
+			res["same"] = before == fmt.Sprint(obs.Of(g), obs.Of(eg), obs.Of(base))
 		})
 		if outcome != "ok" {
 			res = tr.E{}
@@ -230,7 +238,8 @@ func runInv(w *tr.W, in invIn) {
 }
 
 func stdVariants(r *rand.Rand, n, relabellings int) []invVar {
-	vs := []invVar{{Pi: identity(n), Rep: "dense"}, {Pi: identity(n), Rep: "sparse"}, {Pi: identity(n), Rep: "view"}}
+	vs := []invVar{{Pi: identity(n), Rep: "dense"}, {Pi: identity(n), Rep: "sparse"}, {Pi: identity(n), Rep: "view"},
+		{Pi: r.Perm(n), Rep: "coview-sparse"}, {Pi: r.Perm(n), Rep: "coview-dense"}}
 	for i := 0; i < relabellings; i++ {
 		vs = append(vs, invVar{Pi: r.Perm(n), Rep: []string{"dense", "sparse", "view"}[i%3]})
 	}
